@@ -195,6 +195,33 @@ def run_case(case, stats):
                     )
 
         for kind, arg in steps:
+            if kind == "attach" and arg % 5 == 0:
+                # relations that are not markers and happen to have no payload: a leaf constructed without one, and the
+                # doomed / join-identity leaves of an engine that keeps the base-class (None) payloads for them
+                from lsst.daf.relation import GenericConcreteEngine, LeafRelation
+
+                some = nodes[arg % len(nodes)]
+
+                class Bare(GenericConcreteEngine):
+                    pass
+
+                bare = Bare(name="bare")
+                probes = [
+                    ("LeafRelation(payload=None)", LeafRelation(some.engine, frozenset(some.columns), None, name="nopayload", min_rows=0, max_rows=None)),
+                    ("doomed leaf of a GenericConcreteEngine subclass", bare.make_doomed_relation(set(some.columns), ["doomed"])),
+                    ("join-identity leaf of a GenericConcreteEngine subclass", bare.make_join_identity_relation()),
+                ]
+                for what, leafrel in probes:
+                    if leafrel.payload is not None:
+                        continue
+                    try:
+                        leafrel.attach_payload(iteration.RowSequence([]))
+                    except TypeError:
+                        stats.c["attach:rejected-on-payloadless-leaf"] += 1
+                    except Exception as e:
+                        raise Violation("attach-wrong-exception", f"attach_payload on {what}: raised {type(e).__name__}: {e}", sig=exc_sig(e))
+                    else:
+                        raise Violation("attach-accepted", f"attach_payload on {what}: accepted although the relation is not a marker", marker=False)
             if kind == "attach":
                 n = nodes[arg % len(nodes)]
                 try:
